@@ -4,6 +4,8 @@ working tree, run the named check, require that it fires and names the expected 
 restore the tree (git checkout).  Not part of any verdict; run by hand / in the thorough tier's
 self-test.  usage: tools/mutants.py [name-substring ...]"""
 import json
+import os as _os
+_os.environ["VERIF_NO_EVIDENCE"] = "1"
 import os
 import subprocess
 import sys
